@@ -649,6 +649,15 @@ func ruleErrorDiscipline(c *Ctx, id, doc string, flow map[string][]string, exemp
 				for _, call := range f.AllCalls(f.Body, false) {
 					fn := f.Callee(call)
 					if fn == nil {
+						// an immediately invoked literal that returns an error is a step like any other
+						if _, isLit := ast.Unparen(call.Fun).(*ast.FuncLit); isLit {
+							if sg, isSig := f.TypeOf(call.Fun).(*types.Signature); isSig && sg.Results().Len() > 0 && types.Identical(sg.Results().At(sg.Results().Len()-1).Type(), errT) {
+								n++
+								perCallee[root.Name()+":func"]++
+								k := "error-handled:" + root.Name() + ":func-literal#" + itoa(perCallee[root.Name()+":func"])
+								c.Check(f.boundErrorIsReturned(call) || f.failureReturnsError(call), k, f, call, "a failure of the inline step is bound, tested, and every path behind it returns an error")
+							}
+						}
 						continue
 					}
 					sig, ok := fn.Type().(*types.Signature)
